@@ -44,8 +44,8 @@ META = {
     },
     "C09": {
         "bounds": {"quick": "whole parser: 2-operator tables {prefix(2), infix(left 1)} (tuple form, and Vec of boxed operators) and {infix(left 1), postfix(3)} at N=3, arbitrary bytes; one operator step (infix / prefix / postfix) with SYMBOLIC power < 2^15, associativity and min_power, recursion stubbed",
-                   "thorough": "adds the 3-operator table {prefix, infix, postfix} at N=3, {prefix(P), infix} P in {0,2} at N=4, {infix left(1), infix left|right(2)} and {prefix, prefix, infix} at N=5"},
-        "not_covered": ["tables of 4..6 operators, strings of length 8", "symbolic powers in the whole-parser query (unrolling of the recursive closure calls explodes: measured timeouts)", "array tables; Vec / boxed tables beyond the one 2-operator table"],
+                   "thorough": "adds the 3-operator table {prefix, infix, postfix} at N=3 and {infix left(1), infix left|right(2)} at N=5"},
+        "not_covered": ["tables of 4..6 operators, strings of length 8", "3-operator tables beyond N=3, {prefix(P), infix} at N=4 and the nested-prefix table at N=5 (do not finish within 3000 s)", "symbolic powers in the whole-parser query (unrolling of the recursive closure calls explodes: measured timeouts)", "array tables; Vec / boxed tables beyond the one 2-operator table"],
     },
     "C10": {
         "bounds": {"quick": "N=3; &[u8] vs IterInput, Input::map, map_span, &[u8; 3], BoxedStream over a 3-token array, &str (ASCII); Stream over a pull-counting plain iterator: pulls <= |x| and acceptance", "thorough": "same"},
